@@ -292,6 +292,11 @@ class Evaluator:
         self._depth = 0
         self._site = 0
         self._loop_counter = 0
+        # second-chance normal form (driver): inside the functions named here, private helpers the checkers never look at
+        # themselves are inlined even when they have several returns or contain loops (see call_func)
+        self.deep_inline_in: set = set()
+        self.deep_protect: set = set()
+        self.deep_inlined: set = set()
         self._global_cache: dict = {}
         self._newtypes: Optional[dict] = None
         from .types import Types
@@ -445,13 +450,13 @@ class _FuncEval:
             self.expr(s.value, st, stmt_ctx=True)
             return st
         if isinstance(s, ast.Assign):
-            v = self.expr(s.value, st)
+            v = self.expr(s.value, st, stmt_ctx="value")
             for t in s.targets:
                 self.assign(t, v, st, s)
             return st
         if isinstance(s, ast.AnnAssign):
             if s.value is not None:
-                v = self.expr(s.value, st)
+                v = self.expr(s.value, st, stmt_ctx="value")
                 self.assign(s.target, v, st, s)
             return st
         if isinstance(s, ast.AugAssign):
@@ -467,7 +472,7 @@ class _FuncEval:
                 self.effect("aug_sub", self.expr(s.target.value, st), self.index(s.target.slice, st), nv, st, s)
             return st
         if isinstance(s, ast.Return):
-            v = self.expr(s.value, st) if s.value is not None else ("const", None)
+            v = self.expr(s.value, st, stmt_ctx="value") if s.value is not None else ("const", None)
             self._exit("ret", v, st, s)
             return None
         if isinstance(s, ast.Raise):
@@ -1087,8 +1092,8 @@ class _FuncEval:
         return ("comp", kind, elt, tuple(gens))
 
     # ------------------------------------------------------------------ calls
-    def call(self, n: ast.Call, st: State, stmt_ctx: bool = False) -> Term:
-        self._stmt_call = n if stmt_ctx else None
+    def call(self, n: ast.Call, st: State, stmt_ctx: Any = False) -> Term:
+        self._stmt_call = self._value_call = None
         # super()
         if isinstance(n.func, ast.Attribute) and isinstance(n.func.value, ast.Call) and \
                 isinstance(n.func.value.func, ast.Name) and n.func.value.func.id == "super":
@@ -1104,6 +1109,8 @@ class _FuncEval:
             recv = self.expr(n.func.value, st)
             meth = n.func.attr
             bound = self.attr(recv, meth, n.func)
+            self._stmt_call = n if stmt_ctx is True else None  # (arguments are evaluated: nested calls have reset the marks)
+            self._value_call = n if stmt_ctx == "value" else None
             # resolved to something static?
             if bound[0] in ("func", "class", "ext", "builtin", "newtype", "closure", "boundcls"):
                 return self.apply(bound, args, kwargs, st, n)
@@ -1118,6 +1125,8 @@ class _FuncEval:
                 self.effect("mutcall", recv, meth, tuple(args), st, n)
             return self.record(("meth", meth), [recv] + args, kwargs, st, n)
         fn = self.expr(n.func, st)
+        self._stmt_call = n if stmt_ctx is True else None
+        self._value_call = n if stmt_ctx == "value" else None
         return self.apply(fn, args, kwargs, st, n)
 
     def super_call(self, n: ast.Call, st: State) -> Term:
@@ -1280,6 +1289,14 @@ class _FuncEval:
                 return None
         return None
 
+    def _deep(self, callee: FuncInfo) -> bool:
+        if not self.ev.deep_inline_in or callee.qual in self.ev.deep_protect:
+            return False
+        root = self
+        while getattr(root, "parent_eval", None) is not None:
+            root = root.parent_eval
+        return root.f is not None and root.f.qual in self.ev.deep_inline_in
+
     def call_func(self, f: FuncInfo, args: list, kwargs: dict, st: State, n: ast.AST, closure: Optional[Env] = None
                   ) -> Term:
         """Call of a resolved package function: inline when it is a trivial wrapper, else record."""
@@ -1327,6 +1344,63 @@ class _FuncEval:
         private_helper = f.name.startswith("_") and not f.name.startswith("__") and not isinstance(f.node, ast.Lambda)
         if f.nested or f.nested_classes:
             leaf = expr_wrapper = private_helper = False  # a function that defines local helpers is a unit of its own
+        if (private_helper and len(live) > 1 and (getattr(self, "_value_call", None) is n or getattr(self, "_stmt_call", None) is n)
+                and not sm.loops and not sm.effects and not sm.unsupported and not sm.trys
+                and all(e.kind in ("ret", "raise") for e in sm.exits)):
+            # a private helper that is a loop-free, effect-free decision (guards that raise, early returns) called as the whole
+            # right-hand side of a statement: its raise exits become exits of the caller, its returns a conditional value, and the
+            # caller continues under "the helper returned"
+            raises = [e for e in live if e.kind == "raise"]
+            rets = [e for e in live if e.kind == "ret"]
+            val = _ret_tree(rets) if rets else None
+            if val is not None and self._deep(f):
+                self.ev.deep_inlined.add(f.qual)
+                for e in raises:
+                    self.s.exits.append(Exit("raise", e.value, st.cond + e.cond, e.node, tuple(self.loop_stack)))
+                for c in sm.calls:
+                    self.s.calls.append(CallRec(c.fn, c.args, c.kwargs, st.cond + c.cond, tuple(self.loop_stack), n,
+                                                c.result, tuple(self.try_stack), c.inlined))
+                ca, ck = self.canon_call(fn, list(args), dict(kwargs))
+                self.s.calls.append(CallRec(fn, tuple(ca), tuple(sorted(ck.items())), st.cond, tuple(self.loop_stack), n,
+                                            val, tuple(self.try_stack), True))
+                if raises:
+                    if len(rets) == 1:
+                        st.cond = st.cond + rets[0].cond
+                    else:
+                        ds = tuple(_conj(e.cond) for e in rets)
+                        if ("const", True) not in ds:
+                            st.cond = st.cond + ((("or", ds), True),)
+                return val
+        if (private_helper and sm.loops and (getattr(self, "_value_call", None) is n or getattr(self, "_stmt_call", None) is n)
+                and not sm.unsupported and not sm.trys and self._deep(f)):
+            # a private helper that contains loops and ends in one trailing return: its loops, effects, calls and early exits are
+            # spliced into the caller (a loop moved out into a helper is still the caller's loop)
+            rets = [e for e in sm.exits if e.kind == "ret"]
+            if len(rets) == 1 and rets[0].loops == () and not any(lid in self.s.loops for lid in sm.loops):
+                import dataclasses as _dc
+                pc, pl = st.cond, tuple(self.loop_stack)
+                outer = next((l for l in reversed(self.loop_stack) if not l.endswith(":else")), None)
+                for lid, l in sm.loops.items():
+                    self.s.loops[lid] = _dc.replace(
+                        l, parent=l.parent if l.parent is not None else outer, depth=l.depth + len(pl), cond=pc + l.cond,
+                        fall_cond=pc + l.fall_cond if l.fall_cond else l.fall_cond,
+                        break_states=[(pc + c_, d_) for c_, d_ in l.break_states],
+                        continue_updates=[(pc + c_, d_) for c_, d_ in l.continue_updates])
+                for e in sm.exits:
+                    if e is not rets[0]:
+                        self.s.exits.append(Exit(e.kind, e.value, pc + e.cond, e.node, pl + e.loops, e.handled))
+                for e in sm.effects:
+                    self.s.effects.append(Effect(e.kind, e.target, e.key, e.value, pc + e.cond, pl + e.loops, e.node,
+                                                 tuple(self.try_stack) + tuple(e.trys)))
+                for c in sm.calls:
+                    self.s.calls.append(CallRec(c.fn, c.args, c.kwargs, pc + c.cond, pl + c.loops, c.node, c.result,
+                                                tuple(self.try_stack) + tuple(c.trys), c.inlined))
+                ca, ck = self.canon_call(fn, list(args), dict(kwargs))
+                self.s.calls.append(CallRec(fn, tuple(ca), tuple(sorted(ck.items())), st.cond, pl, n, rets[0].value,
+                                            tuple(self.try_stack), True))
+                st.cond = st.cond + rets[0].cond
+                self.ev.deep_inlined.add(f.qual)
+                return rets[0].value
         if (len(live) == 1 and live[0].kind == "ret" and not live[0].cond and not sm.loops and not sm.effects
                 and not sm.unsupported and not sm.trys and (leaf or expr_wrapper or private_helper)):
             # single-return wrapper: inline the value; its own calls become call records of the caller
@@ -1339,6 +1413,37 @@ class _FuncEval:
                                         tuple(self.loop_stack), n, val, tuple(self.try_stack), True))
             return val
         return self.record(fn, args, kwargs, st, n)
+
+
+def _conj(es: tuple) -> Term:
+    ts = tuple(a if p else mk_not(a) for a, p in es)
+    if not ts:
+        return ("const", True)
+    return ts[0] if len(ts) == 1 else ("and", ts)
+
+
+def _ret_tree(rets: list) -> Optional[Term]:
+    """The value of a loop-free function as a decision tree over its return exits (their path conditions form a prefix tree
+    when the function is structured code); None when they do not."""
+
+    def build(es: list, d: int) -> Optional[Term]:
+        if len(es) == 1:
+            return es[0].value
+        if any(len(e.cond) <= d for e in es):
+            return None
+        atom = es[0].cond[d][0]
+        if any(e.cond[d][0] != atom for e in es):
+            return None
+        T = [e for e in es if e.cond[d][1]]
+        F = [e for e in es if not e.cond[d][1]]
+        if not T or not F:
+            return build(es, d + 1)
+        a, b = build(T, d + 1), build(F, d + 1)
+        if a is None or b is None:
+            return None
+        return mk_ite(atom, a, b)
+
+    return build(list(rets), 0)
 
 
 _ASSIGNED_CACHE: dict = {}
